@@ -30,10 +30,10 @@ m = {
               "source_commits": [], "add_only": True},
     "engines": [{"name": "coq-model+correspondence", "path": "/verif/harness/check.py", "serves_properties": sorted(D.CLAIMED),
                  "kind_free_text": "Coq 8.16 model + theorems (coq/), facts regenerated from the source by ast translators (harness/translate), vm_compute correspondence against the implementation (harness/props)"},
-                {"name": "argparse-token-model (ARGP)", "path": "/verif/harness/props/ARGP.py", "serves_properties": ["C01", "C02", "C04", "C12", "C15"],
+                {"name": "argparse-token-model (ARGP)", "path": "/verif/harness/props/ARGP.py", "serves_properties": ["C01", "C02", "C03", "C04", "C12", "C15", "C20"],
                  "kind_free_text": "auxiliary engine, run as ./check ARGP: token-level Coq model of CPython 3.12 argparse optionals, interface lemmas I1-I6, composition theorem and bridge to Leaf.take_values, differential correspondence against the real argparse (the modelled assumption of the per-field properties, checked)"},
-                {"name": "minipy-interpreter (MINIPY)", "path": "/verif/harness/props/MINIPY.py", "serves_properties": ["C01", "C10", "C11", "C12"],
-                 "kind_free_text": "auxiliary engine, run as ./check MINIPY: the MiniPy interpreter of coq/Model/MiniPy.v (the reading of Python under the bridge theorems C01/C10/C11/C12 *_source_*is_model) against CPython on random typed and faulty programs over every constructor; every program is printed to Python source, translated back by harness/translate/minipy.py (round trip must be the identity; aliasing programs must be refused) and executed; value or exception class compared in Coq with `run env prog`"}],
+                {"name": "minipy-interpreter (MINIPY)", "path": "/verif/harness/props/MINIPY.py", "serves_properties": ["C01", "C03", "C07", "C10", "C11", "C12"],
+                 "kind_free_text": "auxiliary engine, run as ./check MINIPY: the MiniPy interpreter of coq/Model/MiniPy.v (the reading of Python under the bridge theorems C01/C03/C07/C10/C11/C12 *_source_*is_model) against CPython on random typed and faulty programs over every constructor; every program is printed to Python source, translated back by harness/translate/minipy.py (round trip must be the identity; aliasing programs must be refused) and executed; value or exception class compared in Coq with `run env prog`"}],
     "checks": checks,
     "notes": D.NOTES,
     "not_applicable": na,
